@@ -3,6 +3,7 @@ package main
 import (
 	"fmt"
 	"go/ast"
+	"go/token"
 	"os"
 	"path/filepath"
 	"regexp"
@@ -31,7 +32,7 @@ var c10interp *stripInterp
 
 func checkC10repo(c *Ctx) {
 	w := c.W
-	c.Rule("R10.3", "print/println are redirected to an empty variadic function added to print.go", 3)
+	c.Rule("R10.3", "print/println are redirected to an empty variadic function added to print.go", 5)
 	c.Rule("R10.4", "the linker learns about -tiny through the variable its patch reads", 2)
 	c.Rule("R10.5", "under -tiny call positions carry no file name", 1)
 	si, err := newStripInterp(w)
@@ -134,6 +135,109 @@ func checkC10repo(c *Ctx) {
 		fmt.Sprintf("print/println are renamed to %q but the function added to print.go is called %q: the runtime does not compile, or calls something else", target, declName))
 	c.Check(variadic && empty, "R10.3", "hidePrintDecl is variadic over interface{} with an empty body", "", "func "+declName+"(args ...interface{}) {}",
 		fmt.Sprintf("the injected function is not an empty variadic func (variadic interface: %v, empty body: %v)", variadic, empty))
+
+	// R10.3 (traversal): the walk that renames the calls must reach every call of the file.
+	// An ast.Inspect callback prunes the subtree it returns false for, so a false that is
+	// not the one after a rename hides calls: function literals passed as arguments
+	// (systemstack(func() { print(...) })), calls nested in operands, ...
+	if sr := w.Fn("stripRuntime"); sr == nil {
+		c.Undecided("R10.3", "stripPrints walk is total", "", "stripRuntime not found")
+	} else {
+		var walker *ssa.Function
+		var rename *ssa.Store
+		for _, af := range sr.AnonFuncs {
+			for _, b := range af.Blocks {
+				for _, in := range b.Instrs {
+					st, ok := in.(*ssa.Store)
+					if !ok {
+						continue
+					}
+					fa, ok := st.Addr.(*ssa.FieldAddr)
+					if !ok || namedOf(fa.X.Type()) != "Ident" || fieldName(fa.X.Type(), fa.Field) != "Name" {
+						continue
+					}
+					if sv, ok := constString(st.Val); ok && sv == target {
+						walker, rename = af, st
+					}
+				}
+			}
+		}
+		if walker == nil {
+			c.Undecided("R10.3", "stripPrints walk is total", w.Pos(sr.Pos()), "no closure of stripRuntime stores the redirect target into an identifier's name")
+		} else {
+			bad := ""
+			for _, r := range returnsOf(walker) {
+				res := retResults(r)
+				if len(res) != 1 {
+					continue
+				}
+				falseFrom := func(v ssa.Value, at *ssa.BasicBlock) {
+					if b, ok := constBool(v); ok && !b && !rename.Block().Dominates(at) {
+						bad = "the callback returns false at " + w.Pos(r.Pos()) + " without having renamed a print call there: the subtree below that node is never visited"
+					} else if !ok {
+						if _, isPhi := v.(*ssa.Phi); !isPhi {
+							bad = "the callback's result at " + w.Pos(r.Pos()) + " is not a constant: cannot tell which subtrees are pruned"
+						}
+					}
+				}
+				if phi, ok := res[0].(*ssa.Phi); ok {
+					for i, e := range phi.Edges {
+						falseFrom(e, phi.Block().Preds[i])
+					}
+				} else {
+					falseFrom(res[0], r.Block())
+				}
+			}
+			c.Check(bad == "", "R10.3", "stripPrints walk is total", w.Pos(walker.Pos()), "returns false only after renaming a print call (whose operands hold no further prints to silence)", bad)
+			// applied to the whole file on every path but the print.go one
+			var insp *CallSite
+			for _, cs := range w.CallsTo("go/ast.Inspect") {
+				if cs.Fn != sr {
+					continue
+				}
+				a0, a1 := cs.Args()[0], cs.Args()[1]
+				if mi, ok := a0.(*ssa.MakeInterface); ok {
+					a0 = mi.X
+				}
+				if ci, ok := a0.(*ssa.ChangeInterface); ok {
+					a0 = ci.X
+				}
+				isFile := len(sr.Params) == 2 && a0 == ssa.Value(sr.Params[1])
+				isWalker := false
+				if mc, ok := a1.(*ssa.MakeClosure); ok && mc.Fn == ssa.Value(walker) {
+					isWalker = true
+				} else if f, ok := a1.(*ssa.Function); ok && f == walker {
+					isWalker = true
+				}
+				if isFile && isWalker {
+					cs := cs
+					insp = &cs
+				}
+			}
+			if insp == nil {
+				c.Bad("R10.3", "stripPrints is applied to the whole file", w.Pos(sr.Pos()), "stripRuntime no longer calls ast.Inspect(file, stripPrints) on the file it was given")
+			} else {
+				bad := ""
+				for _, r := range returnsOf(sr) {
+					if dominatesInstr(insp.Instr, r) {
+						continue
+					}
+					isPrintGo := false
+					for _, f := range edgeFacts(r.Block()) {
+						if bo, ok := f.V.(*ssa.BinOp); ok && f.Outcome && bo.Op == token.EQL {
+							if sv, ok := constString(bo.Y); ok && sv == "print.go" {
+								isPrintGo = true
+							}
+						}
+					}
+					if !isPrintGo {
+						bad = "stripRuntime returns at " + w.Pos(r.Pos()) + " without having walked the file (and it is not the print.go exit, which must keep the real print)"
+					}
+				}
+				c.Check(bad == "", "R10.3", "stripPrints is applied to the whole file", w.Pos(insp.Instr.Pos()), "ast.Inspect(file, stripPrints) dominates every return except the print.go one", bad)
+			}
+		}
+	}
 
 	// R10.4 ---------------------------------------------------------------
 	me := w.Fn("mainErr")
